@@ -247,6 +247,10 @@ func unmarshalFloat(data []byte, bitSize int) (protoreflect.Value, error) {
 func quote(raw []byte) []byte {
 	// (An empty value is the empty string, not a missing JSON document.)
 	if len(raw) < 2 || raw[0] != '"' || raw[len(raw)-1] != '"' {
+		// JSON quoting, not Go quoting: Go escapes such as \x00 or \a are not JSON.
+		if quoted, err := json.Marshal(string(raw)); err == nil {
+			return quoted
+		}
 		raw = strconv.AppendQuote(raw[:0], string(raw))
 	}
 	return raw
